@@ -169,10 +169,12 @@ Definition first_null (t : ctable) (rs : list row) : option string :=
 
 (* ---------- DROP TABLE under foreign_keys=ON: the implicit DELETE FROM parent ---------- *)
 Definition action_of (x : option ref_action) : ref_action := match x with Some a => a | None => NoAction end.
-(* Deleting the rows [gone] of table [parent] (DROP TABLE deletes all of them): RESTRICT is refused at once; CASCADE deletes
-   the referencing rows — and that deletion fires the actions of the foreign keys that reference the child table, to any
-   depth ([fuel]; running out of it is an explicit error) —; SET NULL / SET DEFAULT rewrite the child rows; NO ACTION (the
-   default) is judged at the end of the statement on the rows that are left ([pending] checks). *)
+(* Deleting the rows [gone] of table [parent] (DROP TABLE deletes all of them), one parent row at a time.  The foreign keys of
+   a child table act in catalog order (the order PRAGMA foreign_key_list reports: last declared first): RESTRICT refuses when
+   a referencing row is still there at its turn; CASCADE deletes the referencing rows — and that deletion fires the actions of
+   the foreign keys that reference the child table, to any depth ([fuel]; running out of it is an explicit error) —; SET NULL /
+   SET DEFAULT rewrite the child rows; NO ACTION (the default) is judged at the end of the statement on the rows that are
+   left ([pending] checks). *)
 Definition fk_hits (parent : string) (parent_rows : list row) (f : sfk) (r : row) : bool :=
   let k := key_of (sf_cols f) r in
   (ieq (sf_table f) parent && key_nonnull k && existsb (fun p => key_eqb (key_of (sf_refcols f) p) k) parent_rows)%bool.
@@ -183,8 +185,6 @@ Definition pending_check := (string * sfk * string * list row)%type.   (* child 
 Definition on_delete_child (parent : string) (gone : list row) (child : ctable) (rs : list row)
   : result (list row * list row) db_error :=
   let hit := fk_hits parent gone in
-  if existsb (fun f => match action_of (sf_on_delete f) with Restrict => existsb (hit f) rs | _ => false end) (ct_fks child)
-  then Err (DForeignKey (ct_name child)) else
   fold_left (fun acc f =>
     match acc with
     | Err e => Err e
@@ -208,7 +208,8 @@ Definition on_delete_child (parent : string) (gone : list row) (child : ctable) 
             else if existsb (fun r => (hit f r && key_nonnull (key_of (sf_cols f) (set_default r)))%bool) cur
             then Err (DForeignKey (ct_name child))
             else Ok (map (fun r => if hit f r then set_default r else r) cur, removed)
-        | Restrict | NoAction => Ok (cur, removed)
+        | Restrict => Err (DForeignKey (ct_name child))
+        | NoAction => Ok (cur, removed)
         end
     end) (ct_fks child) (Ok (rs, [])).
 
@@ -217,16 +218,18 @@ Fixpoint delete_rows (fuel : nat) (tables : list ctable) (parent : string) (gone
   match fuel with
   | O => Err (DForeignKey parent)
   | S fuel' =>
+      (* the parent rows go one at a time; for each of them the actions fire child table by child table *)
+      fold_left (fun acc0 p =>
       fold_left (fun acc ch =>
         match acc with
         | Err e => Err e
         | Ok (d, pend) =>
             if ieq (ct_name ch) parent then Ok (d, pend) else
-            match on_delete_child parent gone ch (rows_of (ct_name ch) d) with
+            match on_delete_child parent [p] ch (rows_of (ct_name ch) d) with
             | Err e => Err e
             | Ok (rs, removed) =>
                 let pend' := pend ++ flat_map (fun f => match action_of (sf_on_delete f) with
-                                                        | NoAction => if ieq (sf_table f) parent then [(ct_name ch, f, parent, gone)] else []
+                                                        | NoAction => if ieq (sf_table f) parent then [(ct_name ch, f, parent, [p])] else []
                                                         | _ => [] end) (ct_fks ch) in
                 let d' := set_rows (ct_name ch) rs d in
                 match removed with
@@ -234,7 +237,7 @@ Fixpoint delete_rows (fuel : nat) (tables : list ctable) (parent : string) (gone
                 | _ => delete_rows fuel' tables (ct_name ch) removed (d', pend')
                 end
             end
-        end) tables (Ok st)
+        end) tables acc0) gone (Ok st)
   end.
 
 (* a self-referencing foreign key of the dropped table itself: the rows are deleted one by one, and RESTRICT refuses the
